@@ -164,9 +164,11 @@ def execute(plan):
             key(k, npairs, "one", verdict)
             # two resumed iterations: the continuation, not only its first step
             ref2 = R.get(k + 2)
-            if verdict == "ok" and newest_is_x and ref2 is not None and ref2.result is not None and ref2.result.nfev > ref.result.nfev:
+            # (finite-difference gradients amplify a one-ulp difference of the first resumed iterate by
+            # 1/h ~ 1e8 in the second one: the two-iteration comparison is made with exact gradients only)
+            if verdict == "ok" and newest_is_x and cfg["jac"] == "callable" and ref2 is not None and ref2.result is not None and ref2.result.nfev > ref.result.nfev:
                 v2, info2, act2 = compare_restart(
-                    problem, cfg, blob, np.asarray(ref2.result.x, dtype=float), k + 2, plan["problem"]["pseed"] + 7 * k, stats, ref_act=ref2
+                    problem, cfg, blob, np.asarray(ref2.result.x, dtype=float), k + 2, plan["problem"]["pseed"] + 7 * k, stats, ref_act=ref2, rel_step_tol=1e-5
                 )
                 stats["or.second_iterate"] += 1
                 if v2 == "raised":
